@@ -233,6 +233,8 @@ def c08_unsized_constant_operand(site, w):
     ots = w.get("operand_types", [])
     if not any(t in ("float", "integer", "complex") for t in ots):
         return False
+    if w.get("unsized_operands_from_likeless_constants"):
+        return True  # structural: the node text of a deep graph is truncated before the constant shows
     return "_float_value" in w.get("node", "") or "_integer_value" in w.get("node", "") or "_complex_value" in w.get("node", "")
 
 
